@@ -95,6 +95,9 @@ func (w *World) materialise(ka *keyAllocator) error {
 		if cp.SameName && parent != nil {
 			spec.RawSubject = parent.X.RawSubject
 		}
+		if cp.EmptyName && pos == 0 && n > 1 {
+			spec.EmptyName = true
+		}
 		c, err := Issue(spec, parent)
 		if err != nil {
 			return err
